@@ -4,6 +4,7 @@ import Pyunicorn.Model.RecurrenceObjects
 import Pyunicorn.Lemmas.RecurrenceAdaptive
 import Pyunicorn.Lemmas.RecurrenceAffine
 import Pyunicorn.Lemmas.RecurrenceStd
+import Pyunicorn.Lemmas.RecurrenceRound3
 /-!
 # C07 — recurrence matrices are exactly the thresholded distance matrices
 
@@ -865,10 +866,10 @@ number of state vectors and `|lag| ≤ n`, the object holds
 `JR[i,j] = [d_x(i,j) < ε₁] ∧ [d_y(i+lag, j+lag) < ε₂]` for `lag ≥ 0`, resp.
 `[d_y(i,j) < ε₂] ∧ [d_x(i+ℓ, j+ℓ) < ε₁]` for `lag = −ℓ < 0`, of side `n − |lag|`, and reports
 `N = n − |lag|`. -/
-theorem joint_plot_thr_spec (mx my : Metric) (ex ey : List (List V)) (nRaw n : Nat) (lag : Int)
-    (e1 e2 : Rat) (hn : min ex.length ey.length = n) (hraw : lag.natAbs ≤ nRaw)
-    (hl : lag.natAbs ≤ n) :
-    jointPlot mx my ex ey nRaw lag (.thr e1) (.thr e2) = .ok
+theorem joint_plot_thr_spec (mx my : Metric) (ex ey : List (List V)) (nRaw nRawY n : Nat)
+    (lag : Int) (e1 e2 : Rat) (hn : min ex.length ey.length = n) (hsame : nRaw = nRawY)
+    (hraw : lag.natAbs ≤ nRaw) (hl : lag.natAbs ≤ n) :
+    jointPlot mx my ex ey nRaw nRawY lag (.thr e1) (.thr e2) = .ok
       ⟨tab (n - lag.natAbs) (n - lag.natAbs) (fun i j =>
           if lag ≥ 0 then
             ltV (rpEntry mx (ex.take n) i j) (some (unitThr mx e1))
@@ -880,25 +881,28 @@ theorem joint_plot_thr_spec (mx my : Metric) (ex ey : List (List V)) (nRaw n : N
         ((n - lag.natAbs : Nat) : Int), ((n - lag.natAbs : Nat) : Int)⟩ := by
   have hXl : (ex.take n).length = n := by rw [List.length_take]; omega
   have hYl : (ey.take n).length = n := by rw [List.length_take]; omega
+  have hg : jointGuard nRaw nRawY lag = true := (jointGuard_iff _ _ _).mpr ⟨hsame, hraw⟩
   unfold jointPlot
-  simp only [hn, show ¬ (lag.natAbs > nRaw) by omega, if_false]
+  simp only [jointPruned_eq, hn, hg, Bool.not_true, Bool.false_eq_true, if_false, hXl]
   rw [distRP_eq_tab, distRP_eq_tab, hXl, hYl, threshold_tab, threshold_tab, joint_compose n _ _ lag hl]
   simp only [Res.ofOption, Res.bind, (joint_size_consistent n lag hl).1]
 
 /-- **every RQA method is applicable to a joint plot**: whenever a joint plot is built with
 `|lag|` not exceeding the number of state vectors, the reported `N` is the side of `JR`
 (threshold and rate constructors) -/
-theorem rqa_applicable_joint (mx my : Metric) (ex ey : List (List V)) (nRaw n : Nat) (lag : Int)
-    (sx sy : Spec) (p : Plot) (hn : min ex.length ey.length = n) (hl : lag.natAbs ≤ n)
-    (h : jointPlot mx my ex ey nRaw lag sx sy = .ok p) : p.N = p.R.length := by
+theorem rqa_applicable_joint (mx my : Metric) (ex ey : List (List V)) (nRaw nRawY n : Nat)
+    (lag : Int) (sx sy : Spec) (p : Plot) (hn : min ex.length ey.length = n) (hl : lag.natAbs ≤ n)
+    (h : jointPlot mx my ex ey nRaw nRawY lag sx sy = .ok p) : p.N = p.R.length := by
   have hXl : (ex.take n).length = n := by rw [List.length_take]; omega
   have hYl : (ey.take n).length = n := by rw [List.length_take]; omega
   have hN := joint_size_consistent n lag hl
   unfold jointPlot at h
-  simp only [hn] at h
-  by_cases hraw : lag.natAbs > nRaw
-  · simp only [hraw, if_true] at h; cases h
-  · simp only [hraw, if_false] at h
+  simp only [jointPruned_eq, hn, hXl] at h
+  by_cases hraw : jointGuard nRaw nRawY lag = true
+  swap
+  · have hraw' : jointGuard nRaw nRawY lag = false := by simpa using hraw
+    simp only [hraw', Bool.not_false, if_true] at h; cases h
+  · simp only [hraw, Bool.not_true, Bool.false_eq_true, if_false] at h
     cases sx with
     | thr e1 =>
       cases sy with
@@ -1048,10 +1052,10 @@ theorem thresholdSq_tab' (m : Metric) (n k : Nat) (f : Nat → Nat → V) (t : V
 
 /-- **joint recurrence plot with `threshold_std`** (`set_fixed_threshold_std` → `set_fixed_threshold`):
 the same composition with the thresholds `s₁·std(x)`, `s₂·std(y)` of the two stored series -/
-theorem joint_plot_std_spec (mx my : Metric) (sX sY ex ey : List (List V)) (nRaw n : Nat)
-    (lag : Int) (s1 s2 : Rat) (hn : min ex.length ey.length = n) (hraw : lag.natAbs ≤ nRaw)
-    (hl : lag.natAbs ≤ n) :
-    jointPlotStd mx my sX sY ex ey nRaw lag s1 s2 = .ok
+theorem joint_plot_std_spec (mx my : Metric) (sX sY ex ey : List (List V)) (nRaw nRawY n : Nat)
+    (lag : Int) (s1 s2 : Rat) (hn : min ex.length ey.length = n) (hsame : nRaw = nRawY)
+    (hraw : lag.natAbs ≤ nRaw) (hl : lag.natAbs ≤ n) :
+    jointPlotStd mx my sX sY ex ey nRaw nRawY lag s1 s2 = .ok
       ⟨tab (n - lag.natAbs) (n - lag.natAbs) (fun i j =>
           if lag ≥ 0 then
             ltStd mx (rpEntry mx (ex.take n) i j) (stdThrSq s1 (varV sX.flatten))
@@ -1064,8 +1068,9 @@ theorem joint_plot_std_spec (mx my : Metric) (sX sY ex ey : List (List V)) (nRaw
         ((n - lag.natAbs : Nat) : Int), ((n - lag.natAbs : Nat) : Int)⟩ := by
   have hXl : (ex.take n).length = n := by rw [List.length_take]; omega
   have hYl : (ey.take n).length = n := by rw [List.length_take]; omega
+  have hg : jointGuard nRaw nRawY lag = true := (jointGuard_iff _ _ _).mpr ⟨hsame, hraw⟩
   unfold jointPlotStd
-  simp only [hn, show ¬ (lag.natAbs > nRaw) by omega, if_false]
+  simp only [jointPruned_eq, hn, hg, Bool.not_true, Bool.false_eq_true, if_false, hXl]
   rw [distRP_eq_tab, distRP_eq_tab, hXl, hYl, thresholdSq_tab', thresholdSq_tab',
     joint_compose n _ _ lag hl]
   simp only [Res.ofOption, Res.bind, (joint_size_consistent n lag hl).1]
@@ -1080,5 +1085,456 @@ theorem network_of_plot (p : Plot) (stride : Int) (hN : p.N = p.R.length) (hs : 
   refine ⟨by simp [networkOf, adjacencyOf, zeroStride], rfl, ?_⟩
   intro i j hi hj
   exact network_eq_R_offdiag p.R stride i j (by rw [hs, hN]) hi hj
+
+/-! ## Round 3 -/
+
+/-! ### `JointRecurrencePlot.__init__`: generated pruning and guards -/
+
+/-- **the pruning the constructor writes** (`min_N = min(…)`, `x_embedded[:min_N, :]`,
+`y_embedded[:min_N, :]`, all three expressions generated from the source) keeps exactly the first
+`min(N_x, N_y)` state vectors of both embeddings — "mutually consistent sizes" -/
+theorem joint_prune_generated (ex ey : List (List V)) :
+    jointPruned ex ey = (ex.take (min ex.length ey.length), ey.take (min ex.length ey.length))
+    ∧ (jointPruned ex ey).1.length = min ex.length ey.length
+    ∧ (jointPruned ex ey).2.length = min ex.length ey.length := by
+  rw [jointPruned_eq]
+  refine ⟨rfl, ?_, ?_⟩ <;> simp only [List.length_take] <;> omega
+
+/-- **the error branch**: series of unequal raw length, or `|lag|` beyond the raw length, give
+`ValueError` (the two generated guards), whatever else is requested -/
+theorem joint_guard_raises (mx my : Metric) (ex ey : List (List V)) (nRaw nRawY : Nat) (lag : Int)
+    (sx sy : Spec) (h : nRaw ≠ nRawY ∨ nRaw < lag.natAbs) :
+    jointPlot mx my ex ey nRaw nRawY lag sx sy = .valueError := by
+  have hg : jointGuard nRaw nRawY lag = false := by
+    cases hb : jointGuard nRaw nRawY lag with
+    | false => rfl
+    | true =>
+      have := (jointGuard_iff _ _ _).mp hb
+      omega
+  unfold jointPlot
+  simp only [hg, Bool.not_false, if_true]
+
+example : (match jointPlot .supremum .supremum (column [some 0, some 1]) (column [some 0]) 2 1 0
+    (.thr 1) (.thr 1) with | .valueError => true | _ => false) = true := by decide +kernel
+
+/-- **joint recurrence plot, fixed recurrence rates, at the object level**: for equal raw
+lengths, `|lag| ≤ min(N_x, N_y) = n`, `n ≥ 1` and rates `≤ 1` the constructor returns; each
+sub-plot is its distance matrix thresholded at the generated quantile index of all its `n²`
+distances (`t₁`, `t₂`), and `JR[i,j] = [d_x(i,j) < t₁] ∧ [d_y(i+lag, j+lag) < t₂]` for
+`lag ≥ 0`, resp. the mirrored form for `lag < 0`; side and reported `N` are `n − |lag|`. -/
+theorem joint_plot_rate_spec (mx my : Metric) (ex ey : List (List V)) (nRaw nRawY n : Nat)
+    (lag : Int) (r1 r2 : Rat) (hn : min ex.length ey.length = n) (hsame : nRaw = nRawY)
+    (hraw : lag.natAbs ≤ nRaw) (hl : lag.natAbs ≤ n) (hn1 : 1 ≤ n) (h1 : r1 ≤ 1) (h2 : r2 ≤ 1) :
+    ∃ t1 t2,
+      (sortV (distRP mx (ex.take n)).flatten)[rateK r1 (distRP mx (ex.take n)).flatten.length]?
+        = some t1 ∧
+      (sortV (distRP my (ey.take n)).flatten)[rateK r2 (distRP my (ey.take n)).flatten.length]?
+        = some t2 ∧
+      jointPlot mx my ex ey nRaw nRawY lag (.rate r1) (.rate r2) = .ok
+        ⟨tab (n - lag.natAbs) (n - lag.natAbs) (fun i j =>
+            if lag ≥ 0 then
+              ltV (rpEntry mx (ex.take n) i j) t1
+                && ltV (rpEntry my (ey.take n) (i + lag.natAbs) (j + lag.natAbs)) t2
+            else
+              ltV (rpEntry my (ey.take n) i j) t2
+                && ltV (rpEntry mx (ex.take n) (i + lag.natAbs) (j + lag.natAbs)) t1),
+          ((n - lag.natAbs : Nat) : Int), ((n - lag.natAbs : Nat) : Int)⟩ := by
+  have hXl : (ex.take n).length = n := by rw [List.length_take]; omega
+  have hYl : (ey.take n).length = n := by rw [List.length_take]; omega
+  have hg : jointGuard nRaw nRawY lag = true := (jointGuard_iff _ _ _).mpr ⟨hsame, hraw⟩
+  -- the two quantiles exist
+  have hflat : ∀ (m : Metric) (e : List (List V)), e.length = n →
+      1 ≤ (distRP m e).flatten.length := by
+    intro m e he
+    have hpos : 0 < n := hn1
+    have hne : (distRP m e) ≠ [] := by
+      intro h0
+      have := congrArg List.length h0
+      simp [distRP, tab_length, he] at this
+      omega
+    obtain ⟨r, rs, hrs⟩ := List.exists_cons_of_ne_nil hne
+    have hr : r.length = n := by
+      have := tab_rows e.length e.length (rpEntry m e) r (by rw [← distRP_eq_tab, hrs]; simp)
+      omega
+    rw [hrs, List.flatten_cons, List.length_append]
+    omega
+  have hq : ∀ (m : Metric) (e : List (List V)) (rr : Rat), e.length = n → rr ≤ 1 →
+      ∃ t, (sortV (distRP m e).flatten)[rateK rr (distRP m e).flatten.length]? = some t := by
+    intro m e rr he hrr
+    have hlt := rate_index_in_range rr _ hrr (hflat m e he)
+    have hlen : (sortV (distRP m e).flatten).length = (distRP m e).flatten.length :=
+      (sortV_perm _).length_eq
+    exact ⟨_, List.getElem?_eq_getElem (by rw [hlen]; exact hlt)⟩
+  obtain ⟨t1, ht1⟩ := hq mx (ex.take n) r1 hXl h1
+  obtain ⟨t2, ht2⟩ := hq my (ey.take n) r2 hYl h2
+  refine ⟨t1, t2, ht1, ht2, ?_⟩
+  unfold jointPlot
+  simp only [jointPruned_eq, hn, hg, Bool.not_true, Bool.false_eq_true, if_false, hXl]
+  simp only [fixedRate, quantileAt, ht1, ht2, Option.map_some, Res.ofOption, Res.bind]
+  rw [distRP_eq_tab, distRP_eq_tab, hXl, hYl, threshold_tab, threshold_tab, joint_rate_bounds_eq,
+    joint_compose n _ _ lag hl]
+  simp only [Res.ofOption, Res.bind, (joint_size_consistent n lag hl).2]
+
+/-! ### inter-system recurrence network, fixed recurrence rates -/
+
+theorem fixedRate_some (D : List (List V)) (rr : Rat) (hrr : rr ≤ 1) (hD : 1 ≤ D.flatten.length) :
+    ∃ R, fixedRate D (rateK rr D.flatten.length) = some R := by
+  have hlt := rate_index_in_range rr _ hrr hD
+  have hlen : (sortV D.flatten).length = D.flatten.length := (sortV_perm _).length_eq
+  unfold fixedRate quantileAt
+  rw [List.getElem?_eq_getElem (by rw [hlen]; exact hlt)]
+  exact ⟨_, rfl⟩
+
+theorem flatten_tab_length {α : Type} (n k : Nat) (f : Nat → Nat → α) :
+    (tab n k f).flatten.length = n * k := by
+  unfold tab
+  induction n with
+  | zero => simp
+  | succ n ih =>
+    rw [List.range_succ, List.map_append, List.flatten_append, List.length_append, ih]
+    simp [Nat.succ_mul]
+
+/-- **inter-system recurrence network, fixed recurrence rates, at the object level**: for
+`N_x, N_y ≥ 1` state vectors and rates `≤ 1` the constructor returns (no `IndexError`, no
+`ValueError`); the three blocks are the distance matrices of `x`, of `y` and the cross distance
+matrix, each thresholded at its own generated quantile index with at most that many recurrences
+(`global_rate_le`); they fit, `I = [[Rx, CR], [CRᵀ, Ry]]` (`isrm`, so `isrm_blocks` applies), the
+network has `N_x + N_y` nodes = side of `I`, and the adjacency is `I` without its diagonal
+(the generated stride of the rate branch). -/
+theorem inter_system_rate_spec (m : Metric) (ex ey : List (List V)) (a b c : Rat)
+    (hx : 1 ≤ ex.length) (hy : 1 ≤ ey.length) (ha : a ≤ 1) (hb : b ≤ 1) (hc : c ≤ 1) :
+    ∃ Rx Ry CR I,
+      fixedRate (distRP m ex) (rateK a (distRP m ex).flatten.length) = some Rx
+      ∧ fixedRate (distRP m ey) (rateK b (distRP m ey).flatten.length) = some Ry
+      ∧ fixedRate (distCRP m ex ey) (rateK c (distCRP m ex ey).flatten.length) = some CR
+      ∧ isrm ex.length ey.length Rx Ry CR = some I
+      ∧ I.length = ex.length + ey.length
+      ∧ interSystem m ex ey (.rate a) (.rate b) (.rate c) true
+          = .ok ⟨adjacencyOf I ((ex.length : Int) + ey.length + 1), I,
+                 ((ex.length + ey.length : Nat) : Int)⟩
+      ∧ ∀ i j, i < ex.length + ey.length → j < ex.length + ey.length →
+          entry (adjacencyOf I ((ex.length : Int) + ey.length + 1)) i j
+            = (entry I i j).map fun v => v && decide (i ≠ j) := by
+  have hfx : 1 ≤ (distRP m ex).flatten.length := by
+    rw [distRP_eq_tab, flatten_tab_length]; exact Nat.mul_pos hx hx
+  have hfy : 1 ≤ (distRP m ey).flatten.length := by
+    rw [distRP_eq_tab, flatten_tab_length]; exact Nat.mul_pos hy hy
+  have hfc : 1 ≤ (distCRP m ex ey).flatten.length := by
+    unfold distCRP; rw [flatten_tab_length]; exact Nat.mul_pos hx hy
+  obtain ⟨Rx, hRx⟩ := fixedRate_some _ a ha hfx
+  obtain ⟨Ry, hRy⟩ := fixedRate_some _ b hb hfy
+  obtain ⟨CR, hCR⟩ := fixedRate_some _ c hc hfc
+  obtain ⟨tx, _, hRx', _⟩ := global_rate_le _ _ _ hRx
+  obtain ⟨ty, _, hRy', _⟩ := global_rate_le _ _ _ hRy
+  obtain ⟨tc, _, hCR', _⟩ := global_rate_le _ _ _ hCR
+  have sx : Rx.length = ex.length ∧ ∀ r ∈ Rx, r.length = ex.length := by
+    rw [hRx']
+    exact ⟨by simp [threshold_length, distRP, tab_length], threshold_rows _ _ _ (tab_rows _ _ _)⟩
+  have sy : Ry.length = ey.length ∧ ∀ r ∈ Ry, r.length = ey.length := by
+    rw [hRy']
+    exact ⟨by simp [threshold_length, distRP, tab_length], threshold_rows _ _ _ (tab_rows _ _ _)⟩
+  have sc : CR.length = ex.length ∧ ∀ r ∈ CR, r.length = ey.length := by
+    rw [hCR']
+    exact ⟨by simp [threshold_length, distCRP, tab_length], threshold_rows _ _ _ (tab_rows _ _ _)⟩
+  obtain ⟨I, hI⟩ := isrm_fits _ _ _ _ _ sx sy sc
+  have hlen : I.length = ex.length + ey.length := by
+    have := isrm_size _ _ _ _ _ I hI
+    simp [ArithC07.isrnTotalN] at this
+    omega
+  refine ⟨Rx, Ry, CR, I, hRx, hRy, hCR, hI, hlen, ?_, ?_⟩
+  · simp only [interSystem, recurrencePlot, crossPlot, hRx, hRy, hCR, Res.ofOption, Res.bind,
+      maskIf, Bool.false_eq_true, if_false, isrm_assembly_eq, hI, if_true]
+    simp only [ArithC07.isrnStrideRate, ArithC07.isrnTotalN]
+    have : (adjacencyOf I ((ex.length : Int) + ey.length + 1)).length = ex.length + ey.length := by
+      simp [adjacencyOf, zeroStride, hlen]
+    rw [this]
+  · intro i j hi hj
+    exact network_eq_R_offdiag I _ i j (by rw [hlen]; push_cast; ring) (by omega) (by omega)
+
+/-! ### sequential RQA (`sparse_rqa=True`) -/
+
+/-- **the sequential line kernels see exactly the recurrence matrix**: the cell-by-cell decision
+`metric_supremum(I, j, dim, E) < eps` of `_line_dist` (no matrix stored) is, for *every* pair
+`I, j` — diagonal and states with missing values included — the entry of the matrix
+`set_fixed_threshold` would store for the supremum metric -/
+theorem sparse_matrix_eq (emb : List (List V)) (eps : Rat) :
+    sparseMatrix emb eps = fixedThreshold .supremum emb eps false := by
+  unfold sparseMatrix fixedThreshold
+  simp only [Bool.false_eq_true, if_false]
+  rw [distRP_eq_tab, threshold_tab]
+  exact tab_congr _ _ _ _ (fun i j => seqRec_eq emb eps i j)
+
+/-- hence the sequential line histograms are the line histograms (model of `_line_dist`, property
+C08) of the stored matrix of the non-sparse object -/
+theorem sparse_lines_eq (emb : List (List V)) (eps : Rat) :
+    sparseVertline emb eps false
+        = LineDist.vertline (fixedThreshold .supremum emb eps false) emb.length
+    ∧ sparseDiagline emb eps false
+        = LineDist.diagline (fixedThreshold .supremum emb eps false) emb.length := by
+  simp [sparseVertline, sparseDiagline, sparse_matrix_eq]
+
+/-- a state with a NaN component: the supremum kernel skips it, on and off the diagonal alike -/
+example : sparseMatrix [[none, some 1], [some 0, some 1]] (1/2)
+    = [[true, true], [true, true]] := by decide +kernel
+
+/-! ### recurrence network with `missing_values=True`: the missing states are deleted -/
+
+/-- **a recurrence network is the recurrence matrix without its diagonal — restricted to the
+states without missing values**: with `kept` the (ordered) states whose vectors are complete,
+node `a` of the network is state `kept[a]`, the number of nodes is their number, and
+`A[a,b] = R[kept[a], kept[b]] ∧ kept[a] ≠ kept[b]`, for the threshold, rate and local-rate
+constructions.  (`R` itself keeps its full side: the RQA methods of such an object are the known
+finding C07-rn-missing-values-N.) -/
+theorem network_missing_deleted (m : Metric) (emb : List (List V)) (s : Spec) (p : Net)
+    (h : recurrenceNetwork m emb true s = .ok p) :
+    let kept := keptIdx (missingMask emb) emb.length
+    p.N = kept.length ∧ p.A.length = kept.length ∧
+    ∀ a b ia ib, kept[a]? = some ia → kept[b]? = some ib →
+      entry p.A a b = (entry p.R ia ib).map fun v => v && decide (ia ≠ ib) := by
+  intro kept
+  unfold recurrenceNetwork at h
+  cases hp : recurrencePlot m emb true s with
+  | valueError => simp [hp, Res.bind] at h
+  | indexError => simp [hp, Res.bind] at h
+  | ok q =>
+    have hN : q.N = q.R.length := rqa_applicable_plot m emb true s q hp
+    have hside : q.R.length = emb.length := by
+      cases s with
+      | thr eps =>
+        simp only [recurrencePlot, Res.ok.injEq] at hp
+        subst hp
+        simp [fixedThreshold, applyMask_length, threshold_length, distRP, tab_length]
+      | rate rr =>
+        simp only [recurrencePlot] at hp
+        cases hq : fixedRate (distRP m emb) (rateK rr (distRP m emb).flatten.length) with
+        | none => rw [hq] at hp; simp only [Res.ofOption, Res.bind] at hp; cases hp
+        | some R =>
+          rw [hq] at hp; simp only [Res.ofOption, Res.bind, Res.ok.injEq] at hp
+          subst hp
+          obtain ⟨t, _, hR, _⟩ := global_rate_le _ _ _ hq
+          simp [maskIf_length, hR, threshold_length, distRP, tab_length]
+      | localRate rr =>
+        simp only [recurrencePlot] at hp
+        cases hq : fixedLocalRate (distRP m emb) (rateK rr emb.length) with
+        | none => rw [hq] at hp; simp only [Res.ofOption, Res.bind] at hp; cases hp
+        | some R =>
+          rw [hq] at hp; simp only [Res.ofOption, Res.bind, Res.ok.injEq] at hp
+          subst hp
+          simp [maskIf_length, fixedLocalRate_length _ _ _ hq, distRP, tab_length]
+    simp only [hp, Res.bind, if_true, Res.ok.injEq] at h
+    -- the adjacency before deletion: square of side `emb.length`
+    have hAlen : (adjacencyOf q.R (ArithC07.rnStride q.N)).length = emb.length := by
+      simp [adjacencyOf, zeroStride, hside]
+    have hArow : ∀ r ∈ adjacencyOf q.R (ArithC07.rnStride q.N), r.length = emb.length := by
+      intro r hr
+      have hrows : ∀ r ∈ q.R, r.length = emb.length := by
+        intro r hr
+        cases s with
+        | thr eps =>
+          simp only [recurrencePlot, Res.ok.injEq] at hp
+          subst hp
+          simp only [fixedThreshold, if_true, applyMask, List.mem_map] at hr
+          obtain ⟨⟨row, i⟩, hmem, rfl⟩ := hr
+          have hrow : row ∈ threshold (distRP m emb) (some (unitThr m eps)) :=
+            (List.mem_zipIdx' hmem).2 ▸ List.getElem_mem _
+          simp only [List.length_map, List.length_zipIdx]
+          exact threshold_rows _ _ _ (tab_rows _ _ _) row hrow
+        | rate rr =>
+          simp only [recurrencePlot] at hp
+          cases hq : fixedRate (distRP m emb) (rateK rr (distRP m emb).flatten.length) with
+          | none => rw [hq] at hp; simp only [Res.ofOption, Res.bind] at hp; cases hp
+          | some R =>
+            rw [hq] at hp; simp only [Res.ofOption, Res.bind, Res.ok.injEq] at hp
+            subst hp
+            obtain ⟨t, _, hR, _⟩ := global_rate_le _ _ _ hq
+            simp only [maskIf, if_true, applyMask, List.mem_map] at hr
+            obtain ⟨⟨row, i⟩, hmem, rfl⟩ := hr
+            have hrow : row ∈ R := (List.mem_zipIdx' hmem).2 ▸ List.getElem_mem _
+            simp only [List.length_map, List.length_zipIdx]
+            rw [hR] at hrow
+            exact threshold_rows _ _ _ (tab_rows _ _ _) row hrow
+        | localRate rr =>
+          simp only [recurrencePlot] at hp
+          cases hq : fixedLocalRate (distRP m emb) (rateK rr emb.length) with
+          | none => rw [hq] at hp; simp only [Res.ofOption, Res.bind] at hp; cases hp
+          | some R =>
+            rw [hq] at hp; simp only [Res.ofOption, Res.bind, Res.ok.injEq] at hp
+            subst hp
+            simp only [maskIf, if_true, applyMask, List.mem_map] at hr
+            obtain ⟨⟨row, i⟩, hmem, rfl⟩ := hr
+            have hi : i < R.length := (List.mem_zipIdx' hmem).1
+            have hrow : R[i]? = some row := by
+              rw [List.getElem?_eq_getElem hi]; exact congrArg some (List.mem_zipIdx' hmem).2.symm
+            simp only [List.length_map, List.length_zipIdx]
+            have hDi : i < (distRP m emb).length := by
+              rw [← fixedLocalRate_length _ _ _ hq]; exact hi
+            obtain ⟨t, _, hRi⟩ := local_rate_rows _ _ _ hq i _ (List.getElem?_eq_getElem hDi)
+            rw [hrow] at hRi
+            injection hRi with hRi
+            rw [hRi, List.length_map]
+            exact tab_rows _ _ _ _ (List.getElem_mem hDi)
+      simp only [adjacencyOf, zeroStride, List.mem_map] at hr
+      obtain ⟨⟨row, i⟩, hmem, rfl⟩ := hr
+      have hrow : row ∈ q.R := (List.mem_zipIdx' hmem).2 ▸ List.getElem_mem _
+      simp only [List.length_map, List.length_zipIdx]
+      exact hrows row hrow
+    have hdel := deleteMasked_eq (adjacencyOf q.R (ArithC07.rnStride q.N)) (missingMask emb)
+      emb.length hAlen hArow
+    subst h
+    simp only []
+    rw [hdel]
+    refine ⟨by simp [kept], by simp [kept], ?_⟩
+    intro a b ia ib ha hb
+    have hia : ia < emb.length := by
+      have := List.mem_of_getElem? ha
+      have := (List.mem_filter.mp this).1
+      simpa using this
+    have hib : ib < emb.length := by
+      have := List.mem_of_getElem? hb
+      have := (List.mem_filter.mp this).1
+      simpa using this
+    have hstride : ArithC07.rnStride q.N = (q.R.length : Int) + 1 := by
+      rw [(strides_eq q.N).1, hN]
+    have hent := network_eq_R_offdiag q.R _ ia ib hstride (by omega) (by omega)
+    change (keptIdx (missingMask emb) emb.length)[a]? = some ia at ha
+    change (keptIdx (missingMask emb) emb.length)[b]? = some ib at hb
+    have hL : entry ((keptIdx (missingMask emb) emb.length).map fun i =>
+          (keptIdx (missingMask emb) emb.length).map fun j =>
+            ((adjacencyOf q.R (ArithC07.rnStride q.N)).getD i []).getD j false) a b
+        = some (((adjacencyOf q.R (ArithC07.rnStride q.N)).getD ia []).getD ib false) := by
+      simp only [entry, List.getElem?_map, ha, hb, Option.map_some, Option.bind_some]
+    rw [hL]
+    -- getD of the adjacency at (ia, ib) is its entry
+    have hget : ∀ (A : List (List Bool)) (v : Bool), entry A ia ib = some v →
+        (A.getD ia []).getD ib false = v := by
+      intro A v hv
+      unfold entry at hv
+      cases h1 : A[ia]? with
+      | none => simp [h1] at hv
+      | some row =>
+        simp only [h1, Option.bind_some] at hv
+        simp [List.getD, h1, hv]
+    cases hR : entry q.R ia ib with
+    | none =>
+      exfalso
+      unfold entry at hR
+      have h1 : q.R[ia]? = some (q.R[ia]'(by omega)) := List.getElem?_eq_getElem (by omega)
+      rw [h1] at hR
+      simp only [Option.bind_some] at hR
+      have hrl : (q.R[ia]'(by omega)).length = emb.length := by
+        have := hArow ((adjacencyOf q.R (ArithC07.rnStride q.N))[ia]'(by omega))
+          (List.getElem_mem _)
+        simpa [adjacencyOf, zeroStride] using this
+      rw [List.getElem?_eq_getElem (by omega)] at hR
+      cases hR
+    | some v =>
+      rw [hR] at hent
+      simp only [Option.map_some] at hent ⊢
+      rw [hget _ _ hent]
+
+/-- one missing state out of three: two nodes, linked iff the two complete states recur -/
+example : (match recurrenceNetwork .manhattan (column [some 0, none, some 1]) true (.thr 2) with
+    | .ok p => (p.N, p.A) | _ => (0, [])) = (2, [[false, true], [true, false]])
+    ∧ keptIdx (missingMask (column [some 0, none, some 1])) 3 = [0, 2] := by decide +kernel
+
+/-! ### `normalize=True` on a multi-column series -/
+
+/-- **distance of two states after the column-wise normalisation** `x_l ↦ (x_l − μ_l)/σ_l`
+(`σ_l > 0`): the kernels' loop on the raw differences `|a_l − b_l| / σ_l` — a weighted distance of
+the *given* states, independent of the means.  (For one column this is `dist_rescale`; with several
+columns there is no single threshold on the raw distance, the normalised plot is the thresholded
+weighted-distance matrix.) -/
+theorem normalized_states_weighted_distance (m : Metric) (mu sd : List Rat)
+    (hsd : ∀ s ∈ sd, 0 < s) (hmu : mu.length = sd.length) (a b : List V) :
+    dist m (affRow mu sd a) (affRow mu sd b) = distW m sd a b :=
+  dist_affRow m mu sd hsd hmu a b
+
+example : affRow [1, 0] [2, 1/2] [some 3, some 1] = [some 1, some 2]
+    ∧ distW .manhattan [2, 1/2] [some 3, some 1] [some 1, some 0] = some 3 := by decide +kernel
+
+/-! ### which quantification methods are defined on which construction -/
+
+/-- **every matrix-based quantification method is defined on every square construction**
+(`RecurrencePlot` without `sparse_rqa`, `JointRecurrencePlot`, `RecurrenceNetwork`,
+`JointRecurrenceNetwork`, `InterSystemRecurrenceNetwork`): everything except the two
+ordinal-pattern entropies, which need a delay embedding -/
+theorem rqa_defined_square (c : Cfg) (n : Need) (hc : c.cls ≠ .crp) (hs : c.sparse = false)
+    (hn : n ≠ .ordinal) : outcome c n = .ok := by
+  obtain ⟨cls, sparse, supThr, embedded⟩ := c
+  simp only at hs hc
+  subst hs
+  cases n <;> cases cls <;> simp_all [outcome]
+
+/-- **cross recurrence plot**: defined are exactly the methods that read the matrix, its
+diagonals or the distances; line distributions and twins raise the documented
+`NotImplementedError`, the ordinal entropies the documented `ValueError` -/
+theorem rqa_cross (sparse supThr embedded : Bool) (n : Need) :
+    outcome ⟨.crp, sparse, supThr, embedded⟩ n =
+      (match n with
+       | .matrix | .rate | .diagOf | .distance => .ok
+       | .blackLines | .whiteLines | .twins => .notImplemented
+       | .ordinal => .valueError) := by
+  cases n <;> simp [outcome]
+
+/-- **sequential RQA**: the recurrence rate and the black-line measures are defined exactly for
+the supremum metric with a fixed threshold; whatever needs the stored matrix raises the
+documented `NotImplementedError` (never an undocumented error — repairs cfed511) -/
+theorem rqa_sparse (supThr embedded : Bool) (n : Need) :
+    outcome ⟨.rp, true, supThr, embedded⟩ n =
+      (match n with
+       | .matrix | .distance => .ok
+       | .rate | .blackLines => if supThr then .ok else .notImplemented
+       | .whiteLines | .twins | .diagOf => .notImplemented
+       | .ordinal => if embedded then .ok else .valueError) := by
+  cases n <;> simp [outcome]
+
+/-- the ordinal-pattern entropies are defined exactly on a delay-embedded `RecurrencePlot` /
+`RecurrenceNetwork` -/
+theorem rqa_ordinal (c : Cfg) :
+    outcome c .ordinal = .ok ↔ (c.cls = .rp ∨ c.cls = .rn) ∧ c.embedded = true := by
+  obtain ⟨cls, sparse, supThr, embedded⟩ := c
+  cases cls <;> cases embedded <;> simp [outcome]
+
+/-- **the recurrence rate is defined and is the density of the matrix** whenever the reported `N`
+is the side `n ≥ 1` of `R` (which `rqa_applicable_plot / _joint / _network` prove of the objects):
+the generated denominator `N ** 2` is `n²`, not zero -/
+theorem recurrence_rate_spec (R : List (List Bool)) (N : Int) (hN : N = R.length)
+    (h1 : 1 ≤ R.length) :
+    recurrenceRate R N = some ((countMat R : Rat) / ((R.length * R.length : Nat) : Rat)) := by
+  unfold recurrenceRate ArithC07.rrDenom
+  subst hN
+  have hne : ((R.length : Int) ^ 2) ≠ 0 := by positivity
+  rw [if_neg hne]
+  congr 2
+  push_cast
+  ring
+
+/-- **cross recurrence rate**: defined for `N, M ≥ 1` (denominator `N·M` generated) -/
+theorem cross_recurrence_rate_spec (R : List (List Bool)) (N M : Nat) (hN : 1 ≤ N) (hM : 1 ≤ M) :
+    crossRecurrenceRate R N M = some ((countMat R : Rat) / ((N * M : Nat) : Rat)) := by
+  unfold crossRecurrenceRate ArithC07.crrDenom
+  have hne : ((N : Int) * (M : Int)) ≠ 0 := by positivity
+  rw [if_neg hne]
+  congr 2
+
+/-- **recurrence probability**: defined for every `0 ≤ lag < N`; the generated denominator
+`N − lag` is the length of the `lag`-th diagonal when `N` is the side of `R` -/
+theorem recurrence_probability_spec (R : List (List Bool)) (N : Int) (lag : Nat)
+    (hN : N = R.length) (hl : lag < R.length) :
+    recurrenceProbability R N lag
+      = some ((countTrue (diagAt R lag) : Rat) / ((diagAt R lag).length : Rat)) := by
+  unfold recurrenceProbability ArithC07.rprobDenom
+  subst hN
+  have hne : ((R.length : Int) - (lag : Int)) ≠ 0 := by omega
+  rw [if_neg hne]
+  congr 2
+  simp only [diagAt, List.length_map, List.length_range]
+  have : (((R.length - lag : Nat) : Int) : Rat) = (((R.length : Int) - (lag : Int) : Int) : Rat) := by
+    congr 1; omega
+  exact_mod_cast this.symm
+
+example : recurrenceRate [[true, false], [true, true]] 2 = some (3/4)
+    ∧ recurrenceProbability [[true, false], [true, true]] 2 1 = some 0
+    ∧ recurrenceProbability [[true, false], [true, true]] 2 2 = none := by decide +kernel
 
 end Pyunicorn.Recurrence
